@@ -1,9 +1,8 @@
 #!/bin/bash
-# trypatch.sh <prop> <patch>: apply a patch to /repo, run the check, undo. (uncommitted work in /repo is stashed)
+# trypatch.sh <prop> <patch>: apply a patch to /repo, run the check, undo it straight afterwards.
 prop="$1"; patch="$2"
-cd /repo && git stash -q -u 2>/dev/null; st=$?
-git apply "$patch" || { git stash pop -q 2>/dev/null; echo "patch does not apply"; exit 2; }
+cd /repo && git apply "$patch" || { echo "patch does not apply"; exit 2; }
 cd /verif && GOVC_REPLAY_DIR=/tmp/rp_$prop ./bin/govc check -prop "$prop" -no-evidence 2>&1 | grep -v "^KNOWN-FINDING" | tail -6 | cut -c1-330
 grep -h '"replay_detail"' /tmp/rp_$prop/$prop/*.json 2>/dev/null | sort | uniq -c | head -3 | cut -c1-400
 rm -rf /tmp/rp_$prop
-cd /repo && git checkout -- . && git clean -fdq -e verif_contracts.go >/dev/null 2>&1; git stash pop -q 2>/dev/null; git status --short | head -3
+cd /repo && git apply -R "$patch" && git status --short | head -3
